@@ -251,6 +251,8 @@ def build(rng, family):
         deck.tags.add('cells.unordered')
     if rng.random() < 0.3:
         M.shuffle_options(deck, rng)
+    if rng.random() < 0.3:
+        M.vary_largest_surface(deck, rng)
     roll = rng.random()
     if roll < 0.3:
         # importances other than 1: any positive value keeps the cell
